@@ -103,7 +103,13 @@ def main():
         env = dict(ENV, KVFZ_STATS=stats, ASAN_OPTIONS="detect_leaks=0:abort_on_error=1:symbolize=1")
         cmd = [binary(t), corpus, f"-runs={runs}", f"-seed={seed}", f"-max_len={max_len}", "-len_control=0", "-timeout=120", "-rss_limit_mb=6000",
                f"-artifact_prefix={prefix}", f"-jobs={jobs}", f"-workers={jobs}", "-print_final_stats=1"]
-        r = subprocess.run(cmd, cwd=os.path.join(work, t), env=env, stdout=subprocess.PIPE, stderr=subprocess.STDOUT, text=True)
+        budget = 1800 if tier == "quick" else 4 * 3600
+        try:
+            r = subprocess.run(cmd, cwd=os.path.join(work, t), env=env, stdout=subprocess.PIPE, stderr=subprocess.STDOUT, text=True, timeout=budget, start_new_session=True)
+        except subprocess.TimeoutExpired:
+            subprocess.run(["pkill", "-9", "-f", os.path.join(work, t, "corpus")])
+            inconclusive.append(f"{t}: campaign exceeded its {budget} s wall-clock budget (watchdog; not judged)")
+            r = subprocess.CompletedProcess(cmd, 0, "", "")
         logs = "".join(open(f).read() for f in glob.glob(os.path.join(work, t, "fuzz-*.log")))
         arts = sorted(glob.glob(prefix + "*"))
         crash = [a for a in arts if os.path.basename(a)[len(f"C17-{t}-"):].startswith(("crash-", "leak-"))]
@@ -132,7 +138,7 @@ def main():
                         samples.append({"part": t, "case": v})
                 elif k.startswith("c"):
                     cs[k] = cs.get(k, 0) + int(v)
-        names = {"index_ops": {"c0": "add_vector_calls", "c1": "parallel_batch_inserts", "c2": "searches", "c3": "cancelled_searches", "c4": "concurrent_reader_sections", "c5": "iterations_with_engine_panic(not_UB)"},
+        names = {"index_ops": {"c0": "add_vector_calls", "c1": "parallel_batch_inserts", "c2": "searches", "c3": "cancelled_searches", "c4": "concurrent_reader_sections", "c5": "iterations_with_engine_panic(not_UB)", "c6": "in_flight_cancellation_sections(4 swept delays, then a second tiny index)", "c7": "cancelled_searches_that_returned_short(the flag landed in flight or earlier)"},
                  "simd_kernels": {"c0": "lengths_not_multiple_of_16", "c5": "iterations_with_panic(not_UB)"}}[t]
         for k, v in cs.items():
             if k in names:
